@@ -96,6 +96,15 @@ def h : Handler := fun op j =>
       pure (showExc showRat (equilibriumResidual (← getRat j "rc") (← getRatList j "c0") (← getIntList j "stoich") (← getRat j "K")))
   | "extent_state" => do
       pure (showRatList (extentState (← getRatList j "c0") (← getIntList j "stoich") (← getRat j "rc")))
+  | "varied" => do
+      let varied ← (← getArr j "varied").mapM fun p => do
+        match p with
+        | .arr #[a, b] => do
+            let a ← asInt a
+            if a < 0 then .error "!bad-arg:key" else pure (a.toNat, ← (← asArr b).mapM asRat)
+        | _ => .error "!bad-arg:varied"
+      let r : Except Err (List Nat × List Nat × List (List Rat)) := perSubstanceVaried (← getNat j "ns") (← getRatList j "base") varied
+      pure (showExc (fun (k, sh, rows) => s!"{showNatList k};{showNatList sh};[{",".intercalate (rows.map showRatList)}]") r)
   | _ => .error "!bad-op"
 
 def main : IO Unit := run h
